@@ -227,6 +227,28 @@ theorem Labelled.deleteRes {s : Store} {u : Usage} (h : Labelled s u)
           rw [hz x hx] at hi; cases hi
       exact h.dropR_other (not_names_all hr.2 hno)
 
+/-- another writer's label edit keeps the in-use label -/
+theorem Labelled.touchRes {s : Store} (hs : StoreInv s) {u : Usage} (h : Labelled s u) (g k n : String) (l : Labels) :
+    Labelled (s.touchRes g k n l).1 u := by
+  unfold Store.touchRes
+  split
+  · exact h
+  · next r hg =>
+    have hr := getR_some hg
+    split
+    · exact h
+    · refine h.putR (fun x hx h1 h2 h3 hin => ?_)
+      have : x = r := hs.resUniq x hx r hr.1 h1 h2 h3
+      rw [← this]; exact hin
+
+theorem Marker.touchRes {s : Store} (hs : StoreInv s) (h : Marker s) (g k n : String) (l : Labels) :
+    Marker (s.touchRes g k n l).1 := by
+  intro u hu hur hud
+  have hu' : u ∈ s.usages := by
+    have := (SameUsages.touchRes s g k n l).usages
+    rw [this] at hu; exact hu
+  exact (h u hu' hur hud).touchRes hs g k n l
+
 theorem Marker.deleteRes {s : Store} (h : Marker s) (g k n p : String) (lo po : Bool) :
     Marker (s.deleteRes g k n p lo po none).1 := by
   intro u hu hur hud
